@@ -29,7 +29,14 @@ import (
 	"verif/fw"
 )
 
-const root = "/verif"
+// root is /verif unless VERIF_ROOT points at a snapshot of it (background runs).
+var root = func() string {
+	if r := os.Getenv("VERIF_ROOT"); r != "" {
+		return r
+	}
+	return "/verif"
+}()
+
 const repo = "/repo"
 
 type part struct {
